@@ -10,6 +10,8 @@ from ..report import fkey
 from ..rules import guards, intcmp, edges
 from ..rules.common import *
 
+META = {'technique': 'static analysis: custom AST/CFG/call-graph rules; term-domain abstract interpretation (rules/absint.py) of the option-mapping resolution; inlined views for path rules'}
+
 EXPLANATION = (
     'Decides necessary conditions of supplementary-graph resolution: (A5) SupDSG.resolve runs the mappings only '
     'after the final-and-feasible test of the source and returns only after the finality test of the result; '
